@@ -178,6 +178,9 @@ func newWorld(n int) *world {
 // quiesce waits until no counter has moved for 3 ms (asynchronous export goroutines of the batch log processor /
 // periodic reader after a call that returned early on a done context).
 func (w *world) quiesce() {
+	if os.Getenv("C15_NO_QUIESCE") == "1" {
+		return // self-test of the late-arrival model (Lag.lean): let exports arrive whenever they do
+	}
 	last := w.all()
 	stable := time.Now()
 	deadline := time.Now().Add(300 * time.Millisecond)
